@@ -13,3 +13,5 @@ TECHNIQUE = "contract-based deductive verification (VCs from the ast of the real
 UNITS = [VIO.unit_reader_rows(), VIO.unit_module_rows_validate(), APP.unit_set_options(), APP.unit_c07_sweep()]
 UNITS += [VIO.unit_reader_init(), VIO.unit_validate_rows()]
 UNITS += [VIO.unit_raw_rows().also("C07"), APP.unit_app_init()]
+from contracts import rowio_delim as RD, rowio_fixed as FX
+UNITS += [RD.unit_delimited_rows().also("C07"), FX.unit_fixed_rows().also("C07")]
